@@ -30,7 +30,7 @@ inductive Ev where
   | detachCall
   | hupWon                     -- the hang-up goroutine won closeBy
   | deliver                    -- the poller started to handle an event of this connection
-  | setReq                     -- SetOnRequest called
+  | setReq                     -- SetOnRequest stored the handler (`onRequestCallback.Store`, a schedule point of its own)
   deriving Repr, DecidableEq
 
 /-- final observation -/
